@@ -42,6 +42,15 @@ theorem overlap_iff (ps : List Segs) :
         subst hk
         exact ⟨k, p', mem_tailsOf.mpr hp, q', mem_tailsOf.mpr hq, hpre, fun h => hne (by rw [h])⟩
 
+/-- **the verdict does not depend on how the paths were spelled**: a path is created in its one normalised spelling, which has the
+segments of the path whatever repeated (`//a`) or trailing (`/a/`) separators it was written with - the prefix check, which compares
+segments, sees `//a` next to `/a/b` as `/a` next to `/a/b` (before the `fix:` commit 82e4b93 it compared the empty first piece of `//a`) -/
+theorem spelling_irrelevant (p : String) : pathSegs (normPath p) = pathSegs p ∧ normPath (normPath p) = normPath p :=
+  ⟨pathSegs_normPath p, normPath_idem p⟩
+
+example : normPath "//a" = "/a" ∧ normPath "/a//b/" = "/a/b" ∧ normPath "/" = "/" ∧ pathSegs "//a" = ["a"] ∧
+    nonTerminalLeaves [pathSegs (normPath "//a"), pathSegs (normPath "/a/b")] ≠ [] := by decide
+
 /-- the verdict does not depend on the order in which the paths were met -/
 theorem order_irrelevant (ps qs : List Segs) (h : ps.Perm qs) :
     nonTerminalLeaves ps ≠ [] ↔ nonTerminalLeaves qs ≠ [] := by
